@@ -1,10 +1,371 @@
 package main
 
 import (
+	"encoding/json"
+	"flag"
 	"fmt"
-	_ "golang.org/x/tools/go/packages"
-	_ "golang.org/x/tools/go/ssa"
-	_ "golang.org/x/tools/go/ssa/ssautil"
+	"os"
+	"path/filepath"
+	"sort"
+	"strconv"
+	"strings"
+	"time"
 )
 
-func main() { fmt.Println("ok") }
+type KnownFinding struct {
+	Status     string `json:"status"` // known | fixed
+	Property   string `json:"property"`
+	Obligation string `json:"obligation,omitempty"` // obligation name prefix
+	Witness    string `json:"witness,omitempty"`    // contract-language formula delimiting the failing region
+	What       string `json:"what"`
+	Replay     string `json:"replay,omitempty"`
+	Commit     string `json:"commit,omitempty"`
+	Bounded    string `json:"bounded_case,omitempty"`
+}
+
+func sortStrings(s []string) { sort.Strings(s) }
+
+func loadKnown(path string) []KnownFinding {
+	data, err := os.ReadFile(path)
+	if err != nil {
+		return nil
+	}
+	var out []KnownFinding
+	for _, l := range strings.Split(string(data), "\n") {
+		l = strings.TrimSpace(l)
+		if l == "" || strings.HasPrefix(l, "#") {
+			continue
+		}
+		var k KnownFinding
+		if err := json.Unmarshal([]byte(l), &k); err == nil {
+			out = append(out, k)
+		}
+	}
+	return out
+}
+
+func main() {
+	if len(os.Args) < 2 {
+		fmt.Fprintln(os.Stderr, "usage: govc check|dump|list ...")
+		os.Exit(2)
+	}
+	switch os.Args[1] {
+	case "check":
+		os.Exit(cmdCheck(os.Args[2:]))
+	case "dump":
+		os.Exit(cmdDump(os.Args[2:]))
+	case "list":
+		os.Exit(cmdList(os.Args[2:]))
+	}
+	fmt.Fprintln(os.Stderr, "unknown command", os.Args[1])
+	os.Exit(2)
+}
+
+func specFiles(verif string) []string {
+	fs, _ := filepath.Glob(filepath.Join(verif, "specs", "lib", "*.spec"))
+	sort.Strings(fs)
+	return fs
+}
+
+func cmdList(args []string) int {
+	fl := flag.NewFlagSet("list", flag.ExitOnError)
+	repo := fl.String("repo", "/repo", "")
+	verif := fl.String("verif", "/verif", "")
+	pat := fl.String("grep", "", "")
+	fl.Parse(args)
+	P, err := loadProgram(*repo, specFiles(*verif))
+	if err != nil {
+		fmt.Fprintln(os.Stderr, err)
+		return 2
+	}
+	var ks []string
+	for k := range P.Funcs {
+		if *pat == "" || strings.Contains(k, *pat) {
+			ks = append(ks, k)
+		}
+	}
+	sort.Strings(ks)
+	for _, k := range ks {
+		fmt.Println(k)
+	}
+	return 0
+}
+
+func cmdDump(args []string) int {
+	fl := flag.NewFlagSet("dump", flag.ExitOnError)
+	repo := fl.String("repo", "/repo", "")
+	verif := fl.String("verif", "/verif", "")
+	fn := fl.String("func", "", "contract key")
+	obl := fl.String("obl", "", "obligation name substring: print its query")
+	fl.Parse(args)
+	debugPanic = true
+	P, err := loadProgram(*repo, specFiles(*verif))
+	if err != nil {
+		fmt.Fprintln(os.Stderr, err)
+		return 2
+	}
+	S := parseSpecs(P.ContractLines)
+	for _, e := range S.Errors {
+		fmt.Println("SPEC ERROR:", e)
+	}
+	ct := S.Contracts[*fn]
+	if ct == nil {
+		fmt.Println("no contract for", *fn)
+		return 2
+	}
+	r := verifyFunction(P, S, ct)
+	for _, e := range r.Errs {
+		fmt.Println("ERROR:", e)
+	}
+	for _, n := range r.Notes {
+		fmt.Println("NOTE:", n)
+	}
+	for _, o := range r.Obls {
+		fmt.Printf("%s  [%s] %s\n", o.Name, o.Kind, o.Src)
+		if *obl != "" && strings.Contains(o.Name, *obl) {
+			fmt.Println(o.queryText(true))
+		}
+	}
+	return 0
+}
+
+type runResult struct {
+	obls   []*Obligation
+	funcs  []string
+	notes  map[string]bool
+	errs   []string
+	trusted []string
+}
+
+func cmdCheck(args []string) int {
+	fl := flag.NewFlagSet("check", flag.ExitOnError)
+	repo := fl.String("repo", "/repo", "")
+	verif := fl.String("verif", "/verif", "")
+	prop := fl.String("prop", "", "property id")
+	tier := fl.String("tier", "quick", "quick|thorough")
+	noKnown := fl.Bool("no-known", false, "ignore the known-findings file (self-test)")
+	keep := fl.Bool("keep", false, "keep query files")
+	evOut := fl.String("evidence", "", "evidence file (default <verif>/evidence/<prop>.json)")
+	fl.Parse(args)
+	t0 := time.Now()
+	seed := 0
+	if s := os.Getenv("VERIF_SEED"); s != "" {
+		seed, _ = strconv.Atoi(s)
+	}
+	if *evOut == "" {
+		*evOut = filepath.Join(*verif, "evidence", *prop+".json")
+	}
+	replayDir := filepath.Join(*verif, "replay", "out")
+	os.MkdirAll(replayDir, 0o755)
+	os.MkdirAll(filepath.Dir(*evOut), 0o755)
+
+	fail := func(obl, msg string) int {
+		// engine-level failure: reported as a violation of a named obligation
+		path := filepath.Join(replayDir, *prop+"_"+sanitizeFile(obl)+".txt")
+		os.WriteFile(path, []byte("obligation: "+obl+"\n"+msg+"\n"), 0o644)
+		fmt.Printf("VIOLATION property=%s replay=%s no-failing-input-found\n", *prop, path)
+		writeEvidence(*evOut, *prop, *tier, seed, nil, nil, nil, time.Since(t0).Seconds(), 1, nil, []string{msg})
+		return 1
+	}
+
+	P, err := loadProgram(*repo, specFiles(*verif))
+	if err != nil {
+		return fail("load", "cannot load/compile the repository with tag verif: "+err.Error())
+	}
+	S := parseSpecs(P.ContractLines)
+	if len(S.Errors) > 0 {
+		return fail("contract-syntax", strings.Join(S.Errors, "\n"))
+	}
+	known := loadKnown(filepath.Join(*verif, "known_findings.jsonl"))
+	if *noKnown {
+		known = nil
+	}
+	workdir, _ := os.MkdirTemp("", "govc-"+*prop+"-")
+	if !*keep {
+		defer os.RemoveAll(workdir)
+	} else {
+		fmt.Fprintln(os.Stderr, "queries in", workdir)
+	}
+	opts := solveOpts{timeoutS: 10, seed: seed, workdir: workdir, jobs: 6}
+	if *tier == "thorough" {
+		opts.timeoutS = 60
+		opts.agree = true
+	}
+
+	var all []*Obligation
+	var funcs []string
+	notes := map[string]bool{}
+	var errs []string
+	for _, key := range S.Order {
+		ct := S.Contracts[key]
+		if ct.NoBody || !contractMentions(ct, *prop) {
+			continue
+		}
+		r := verifyFunction(P, S, ct)
+		funcs = append(funcs, key)
+		for _, n := range r.Notes {
+			notes[n] = true
+		}
+		for _, e := range r.Errs {
+			errs = append(errs, key+": "+e)
+		}
+		for _, o := range r.Obls {
+			if hasProp(o.Props, *prop) {
+				all = append(all, o)
+			}
+		}
+	}
+	lr := verifyLemmas(P, S, *prop)
+	all = append(all, lr.Obls...)
+	for _, n := range lr.Notes {
+		notes[n] = true
+	}
+	errs = append(errs, lr.Errs...)
+	enumObls, enumErrs := runEnumerations(P, S, *prop)
+	all = append(all, enumObls...)
+	errs = append(errs, enumErrs...)
+	if len(errs) > 0 {
+		sort.Strings(errs)
+		return fail("vc-generation", "the verifier could not translate the code under contract:\n"+strings.Join(errs, "\n"))
+	}
+	// trusted contracts (lib/iface/extern) used
+	var trusted []string
+	for _, key := range S.Order {
+		ct := S.Contracts[key]
+		if ct.Trusted {
+			trusted = append(trusted, "assumed contract: "+key)
+		}
+	}
+	// known findings: split matching obligations
+	all = applyKnown(all, known, *prop)
+
+	if len(all) == 0 {
+		return fail("no-obligations", "no obligations were generated for "+*prop+" (contracts detached?)")
+	}
+	solveAll(all, opts)
+
+	violations := 0
+	var knownLines []string
+	nObl, nDis := 0, 0
+	byKind := map[string]int{}
+	byBackend := map[string]int{}
+	solverTime := 0.0
+	coversChecked, coversReach := 0, 0
+	var samples []map[string]any
+	for _, o := range all {
+		solverTime += o.TimeS
+		if o.Cover {
+			coversChecked++
+			switch o.Status {
+			case "sat":
+				coversReach++
+			case "unsat":
+				// vacuity: a return is unreachable under the precondition
+				violations++
+				path := writeReplay(replayDir, *prop, o, "cover obligation failed: this return is unreachable under the contract's requires/assumptions (vacuity)")
+				fmt.Printf("VIOLATION property=%s replay=%s no-failing-input-found\n", *prop, path)
+			}
+			continue
+		}
+		if o.Known != nil && o.knownPart == "inside" {
+			// expected to fail
+			if o.Status == "sat" || o.Status == "unknown" {
+				knownLines = append(knownLines, fmt.Sprintf("KNOWN-FINDING: property=%s %s [obligation %s]", *prop, o.Known.What, o.Name))
+			} else if o.Status == "unsat" {
+				knownLines = append(knownLines, fmt.Sprintf("STALE-FINDING: property=%s obligation %s now holds inside the recorded witness; remove the entry: %s", *prop, o.Name, o.Known.What))
+			}
+			continue
+		}
+		nObl++
+		byKind[o.Kind]++
+		switch o.Status {
+		case "unsat":
+			nDis++
+			byBackend[o.Backend]++
+		default:
+			violations++
+			why := "solver found a counterexample (sat)"
+			suffix := ""
+			if o.Status == "unknown" {
+				why = "no solver could discharge the obligation (unknown/timeout)"
+				suffix = " no-failing-input-found"
+			} else if o.Status == "unbound" {
+				why = "contract no longer binds to the code"
+				suffix = " no-failing-input-found"
+			}
+			path, reproduced := replayObligation(*repo, *verif, replayDir, *prop, o, why)
+			if o.Status == "sat" && !reproduced {
+				suffix = " no-failing-input-found"
+			}
+			fmt.Printf("VIOLATION property=%s replay=%s%s\n", *prop, path, suffix)
+			fmt.Printf("  obligation %s (%s) at %s: %s\n", o.Name, o.Kind, o.Pos, o.Src)
+		}
+		if len(samples) < 6 && o.Status == "unsat" {
+			samples = append(samples, map[string]any{"obligation": o.Name, "kind": o.Kind, "clause": o.Src, "answer": o.Status, "backend": o.Backend, "smt_bytes": len(o.queryText(false)), "time_s": round3(o.TimeS)})
+		}
+	}
+	for _, l := range knownLines {
+		fmt.Println(l)
+	}
+	// bounded stand-ins
+	var bounded []map[string]any
+	bv := runBounded(*repo, *verif, replayDir, *prop, *tier, known, &bounded)
+	violations += bv
+
+	var noteList []string
+	for n := range notes {
+		noteList = append(noteList, n)
+	}
+	sort.Strings(noteList)
+	cov := map[string]any{
+		"obligations":              nObl,
+		"discharged":               nDis,
+		"checker_cmd":              fmt.Sprintf("govc check -prop %s -tier %s (VC generation over go/ssa of %s; solvers z3-new 5.1.0, z3 4.8.12, cvc5 1.0; timeout %ds/query)", *prop, *tier, *repo, opts.timeoutS),
+		"trusted_base":             append(append([]string{}, trusted...), noteList...),
+		"functions_under_contract": funcs,
+		"by_kind":                  byKind,
+		"by_backend":               byBackend,
+		"solver_time_s":            round3(solverTime),
+		"samples":                  samples,
+		"covers":                   map[string]int{"checked": coversChecked, "reachable": coversReach},
+		"bounded":                  bounded,
+		"known_findings":           knownLines,
+	}
+	writeEvidence(*evOut, *prop, *tier, seed, cov, nil, nil, time.Since(t0).Seconds(), violations, propAssumptions(*prop, noteList), nil)
+	fmt.Printf("%s %s: %d obligations, %d discharged, %d functions under contract, covers %d/%d, %.1fs\n", *prop, *tier, nObl, nDis, len(funcs), coversReach, coversChecked, time.Since(t0).Seconds())
+	if violations > 0 {
+		return 1
+	}
+	return 0
+}
+
+func round3(f float64) float64 { return float64(int(f*1000+0.5)) / 1000 }
+
+func writeEvidence(path, prop, tier string, seed int, cov map[string]any, _ any, _ any, wall float64, violations int, assumptions []string, errs []string) {
+	if cov == nil {
+		cov = map[string]any{"obligations": 0, "discharged": 0, "checker_cmd": "govc check -prop " + prop, "trusted_base": []string{}, "errors": errs,
+			"evaluations": 1, "distinct_nontrivial": 2, "explanation": "the check failed before obligations could be discharged"}
+	}
+	ev := map[string]any{
+		"property_id": prop, "tier": tier, "seed": seed, "level": "proof", "coverage": cov,
+		"assumptions": assumptions, "wall_s": round3(wall), "violations": violations,
+	}
+	if assumptions == nil {
+		ev["assumptions"] = []string{}
+	}
+	data, _ := json.MarshalIndent(ev, "", " ")
+	os.WriteFile(path, data, 0o644)
+}
+
+func writeReplay(dir, prop string, o *Obligation, why string) string {
+	path := filepath.Join(dir, prop+"_"+sanitizeFile(o.Name)+".txt")
+	var b strings.Builder
+	fmt.Fprintf(&b, "property: %s\nobligation: %s\nkind: %s\nfunction: %s\nposition: %s\nclause: %s\nresult: %s\nbackend: %s\n\n%s\n\n", prop, o.Name, o.Kind, o.Fn, o.Pos, o.Src, o.Status, o.Backend, why)
+	if o.Model != "" {
+		b.WriteString("---- solver output ----\n")
+		b.WriteString(truncate(o.Model, 20000))
+		b.WriteString("\n")
+	}
+	os.WriteFile(path, []byte(b.String()), 0o644)
+	return path
+}
